@@ -388,24 +388,29 @@ def export_json(stats, verbose=0, category_filter=None, merchant_filter=None):
 
     # Calculate gross spending and credits
     gross_spending = sum(d['total'] for d in by_merchant.values() if d['total'] > 0)
-    credits_total = abs(sum(d['total'] for d in by_merchant.values() if d['total'] < 0))
 
-    # Calculate income and transfers from merchants by tag
-    income_total = sum(d['total'] for d in by_merchant.values()
-                       if 'income' in [t.lower() for t in d.get('tags', set())])
-    transfers_total = abs(sum(d['total'] for d in by_merchant.values()
-                              if 'transfer' in [t.lower() for t in d.get('tags', set())]))
+    # Money-flow figures are the transaction-level totals from analyze_transactions
+    # (the same numbers the text, markdown and HTML reports show)
+    income_total = stats.get('income_total', 0)
+    spending_total = stats.get('spending_total', 0)
+    credits_total = stats.get('credits_total', 0)
+    transfers_in = stats.get('transfers_in', 0)
+    transfers_out = stats.get('transfers_out', 0)
+    transfers_total = abs(stats.get('transfers_net', 0))
 
     output = {
         'summary': {
             'total_spending': round(stats['total'], 2),
             'gross_spending': round(gross_spending, 2),
+            'spending_total': round(spending_total, 2),
             'credits_total': round(credits_total, 2),
             'monthly_budget': round(stats['monthly_avg'], 2),
             'num_months': stats['num_months'],
             'income_total': round(income_total, 2),
             'transfers_total': round(transfers_total, 2),
-            'net_cash_flow': round(income_total - stats['total'], 2) if income_total > 0 else None,  # transfers excluded
+            'transfers_in': round(transfers_in, 2),
+            'transfers_out': round(transfers_out, 2),
+            'net_cash_flow': round(stats.get('cash_flow', 0), 2) if income_total > 0 else None,  # transfers excluded
         },
         'by_month': {month: {'total': round(total, 2)}
                      for month, total in sorted(by_month.items())},
